@@ -7,6 +7,8 @@ import pickle
 import random
 import shutil
 import tempfile
+import threading
+import time
 
 from vmon import env
 
@@ -188,7 +190,14 @@ def run_case(desc):
         if mount == "direct":
             store = make(path)
         elif mount == "testmount":
-            store = TestMountedFileStore(make)
+            class SlowTestMounted(TestMountedFileStore):
+                rv = None
+
+                def copy_to_local(self, local_path):
+                    TestMountedFileStore.copy_to_local(self, local_path)
+                    _rendezvous(self.rv)
+
+            store = SlowTestMounted(make)
         else:
             remote = os.path.join(tmp, "remote.dat")
 
@@ -196,8 +205,11 @@ def run_case(desc):
                 def copy_from_local(self, local_path):
                     shutil.copyfile(local_path, remote)
 
+                rv = None
+
                 def copy_to_local(self, local_path):
                     shutil.copyfile(remote, local_path)
+                    _rendezvous(self.rv)
 
                 def get_modified_time(self):
                     return st.get_modified_time(remote) if hasattr(st, "get_modified_time") else _mt(remote)
@@ -222,6 +234,75 @@ def run_case(desc):
             elif prev is not None and mt < prev:
                 bad = f"modified time decreased across successive writes: {prev} -> {mt}"
             prev = mt
+        if bad is None and mount != "direct":
+            # several threads read ONE mounted store object at the same time (as two plan nodes sharing a store do with max_workers > 1):
+            # all of them are made to overlap between "copied to local" and "local file read"; each must get the value
+            T = r.choice([2, 3, 4])
+            rv = {"barrier": threading.Barrier(T), "order": {}, "lock": threading.Lock()}
+            store.rv = rv
+            results = [None] * T
+
+            def reader(i):
+                try:
+                    results[i] = ("ok", store.read())
+                except BaseException as e:  # noqa
+                    results[i] = ("exc", e)
+
+            ths = [threading.Thread(target=reader, args=(i,)) for i in range(T)]
+            for t_ in ths:
+                t_.start()
+            for t_ in ths:
+                t_.join(30)
+            store.rv = None
+            concurrent_reads = T
+            for i, res_ in enumerate(results):
+                if res_ is None:
+                    bad = f"concurrent read #{i} of one mounted store object did not finish"
+                elif res_[0] == "exc":
+                    bad = f"concurrent read #{i} of one mounted store object (of {T} overlapping reads) raised {res_[1]!r}"
+                elif not deep_eq(res_[1], value):
+                    bad = f"concurrent read #{i} of one mounted store object (of {T} overlapping reads) returned {_short(res_[1])}, written {_short(value)}"
+                if bad:
+                    break
+        if bad is None and mount == "direct":
+            # a stored file whose mtime is exactly the epoch (reproducible unpacking, ostree): still "something is stored"
+            os.utime(base, (0, 0))
+            if store.get_modified_time() is None:
+                bad = "get_modified_time() is None although the file exists (its mtime is the Unix epoch, os.utime(path, (0, 0)))"
+        if bad is None and mount == "direct" and desc["seed"] % 4 == 0:
+            # the same clause as instants: in a zone with daylight saving, files written before, inside and after the repeated
+            # (fall-back) hour must report modified times that never go back in time (naive local datetimes carry fold)
+            from vmon.checks import c18
+
+            zone = r.choice(["America/New_York", "Europe/Berlin", "Australia/Lord_Howe", "America/St_Johns", "Europe/London", "Pacific/Chatham"])
+            old_tz = os.environ.get("TZ")
+            c18.set_tz(zone)
+            try:
+                falls = [t for t, k in c18.transitions(zone, r) if k == "fall"]
+                if falls:
+                    T0 = r.choice(falls)
+                    seq = sorted(T0 + d for d in [-4000, -3000, -1500, -1, 0, 1, 900, 1700, 1800, 2100, 3000, 3599, 3600, 5000] if r.random() < 0.75)
+                    prev_i = None
+                    for t_ in seq:
+                        ns = t_ * 10**9 + r.randrange(10**9)
+                        os.utime(base, ns=(ns, ns))
+                        mt = store.get_modified_time()
+                        if mt is None:
+                            bad = "get_modified_time() is None for an existing file"
+                            break
+                        inst = mt.timestamp()  # naive = local time, fold honoured
+                        if prev_i is not None and inst < prev_i[1] - 1e-6:
+                            bad = (f"[TZ={zone}] modified time went back although the file's mtime increased: mtime {prev_i[0]} -> {ns / 1e9:.6f} (epoch s), reported "
+                                   f"{prev_i[2]!r} -> {mt!r}, i.e. instants {prev_i[1]:.6f} -> {inst:.6f}")
+                            break
+                        prev_i = (ns / 1e9, inst, mt)
+                    dst_seq = 1
+            finally:
+                if old_tz is None:
+                    os.environ.pop("TZ", None)
+                else:
+                    os.environ["TZ"] = old_tz
+                time.tzset()
         if bad is None and mount == "direct":
             # successive writes whose file-system times increase across a second boundary (set with os.utime, so the
             # clause does not depend on how fast this machine writes): the reported time must never decrease
@@ -273,7 +354,8 @@ def run_case(desc):
         dig = hashlib.sha1(pickle.dumps(value) if kind != "text" else value.encode("utf-8", "surrogatepass")).hexdigest()[:12]
     except Exception:
         dig = str(desc["seed"])
-    res = {"status": "ok", "counters": {"round_trips": 1, "mtime_sequences_across_second_boundary": int(mount == "direct"), f"kind_{kind}": 1, f"mount_{mount}": 1}, "sets": {"features": feats},
+    res = {"status": "ok", "counters": {"round_trips": 1, "mtime_sequences_across_second_boundary": int(mount == "direct"), "epoch_mtime_checks": int(mount == "direct"),
+                                        "dst_fallback_mtime_sequences": int(mount == "direct" and desc["seed"] % 4 == 0), "concurrent_mounted_read_groups": int(mount != "direct"), f"kind_{kind}": 1, f"mount_{mount}": 1}, "sets": {"features": feats},
            "nontrivial": nontrivial, "sig": f"{kind}|{mount}|{pathkind}|{enc}|{dig}"}
     if desc["seed"] % 1500 == 0 or bad:
         res["sample"] = {"kind": kind, "mount": mount, "path": pathkind, "encoding": enc, "value": _short(value)}
@@ -284,6 +366,18 @@ def run_case(desc):
         res.update(status="violation", detail=f"[{kind} {mount} {pathkind} enc={enc}] {bad}", mechanism=mech,
                    witness={"kind": kind, "mount": mount, "encoding": enc, "value_repr": _short(value, 2000)})
     return res
+
+
+def _rendezvous(rv):
+    """All overlapping readers first finish their copy, then continue one after the other (so a reader that shares a local file with
+    another one finds it replaced or removed)."""
+    if rv is None:
+        return
+    try:
+        i = rv["barrier"].wait(10)
+    except threading.BrokenBarrierError:
+        return
+    time.sleep(0.003 * i)
 
 
 def _mt(p):
